@@ -302,7 +302,7 @@ impl Check for C11 {
             return;
         }
         let total = match ctx.tier {
-            Tier::Quick => 1500,
+            Tier::Quick => 3000,
             Tier::Thorough => 20000,
         };
         prop_loop(ctx, rec, "gen", strategy(), ctx.share(total), judge);
